@@ -675,10 +675,31 @@ func runPolicy(r *ev.Recorder, c tcase) (bool, string, error) { return runPolicy
 // policy mode: provider responses through runner.DispatchOnResponse, responses the gateway gives by itself
 // (a fixed_response remedy on the endpoint of that status) through runner.DispatchOnRequest, whose early
 // response runs through the response-side remedies.
+// longLived: one retry plugin (and its clock) that serves every case of a unit, as the gateway's single retry
+// plugin serves every sequence of its life; each case uses sequence ids of its own.
+type longLived struct {
+	clk    *vclock.Clock
+	plugin *remedies.RetryPlugin
+	cases  int
+}
+
 func runPolicyVia(r *ev.Recorder, c tcase, dispatcher bool) (bool, string, error) {
+	return runPolicyOn(r, c, dispatcher, nil)
+}
+
+func runPolicyOn(r *ev.Recorder, c tcase, dispatcher bool, ll *longLived) (bool, string, error) {
 	g0 := runtime.NumGoroutine()
 	clk := vclock.New(time.Unix(1_700_000_000, 0))
 	plugin := remedies.NewRetryPlugin(clk)
+	if ll != nil {
+		clk, plugin = ll.clk, ll.plugin
+		ll.cases++
+		seqs := make([]string, len(c.Seqs))
+		for i, s := range c.Seqs {
+			seqs[i] = fmt.Sprintf("L%d-%s", ll.cases, s)
+		}
+		c.Seqs = seqs
+	}
 	cfg := &sharedConfig.RetryConfig{Attempts: c.Policy.Attempts, InitialCooldownSeconds: c.Policy.Initial, CooldownMultiplier: c.Policy.Mult}
 	for _, rg := range c.Policy.Ranges {
 		cfg.Conditions.StatusCode = append(cfg.Conditions.StatusCode, sharedConfig.Range[int]{From: rg[0], To: rg[1]})
@@ -704,7 +725,7 @@ func runPolicyVia(r *ev.Recorder, c tcase, dispatcher bool) (bool, string, error
 	}
 	j := newJudge(r, c)
 	defer func() {
-		// let every time-to-live goroutine of this case finish
+		// let every time-to-live goroutine of this case finish (and, for a long-lived plugin, every entry expire)
 		clk.Advance(100000 * time.Second)
 		_ = settle(clk, g0)
 	}()
@@ -842,6 +863,29 @@ func TestPolicyRetryThroughDispatcher(t *testing.T) {
 		}
 		r.Case()
 		nt, bad, err := runPolicyVia(r, c, true)
+		if err != nil || bad != "" {
+			fatal(t, r, c, bad, err)
+		}
+		if nt {
+			r.NonTrivial(ev.JSON(c), func() any { return c })
+		}
+	})
+}
+
+// TestPolicyRetryLongLivedPlugin: the policy histories against ONE plugin instance for the whole unit (thousands
+// of finished sequences before a given one), every case with sequence ids of its own. A failure depends on the
+// cases before it: the replay is the run with the same seed, the reported case is the one that failed first.
+func TestPolicyRetryLongLivedPlugin(t *testing.T) {
+	r := ev.New(t, "C17")
+	clk := vclock.New(time.Unix(1_700_000_000, 0))
+	ll := &longLived{clk: clk, plugin: remedies.NewRetryPlugin(clk)}
+	rapid.Check(t, func(t *rapid.T) {
+		c := genPolicyCase().Draw(t, "case")
+		r.Case()
+		nt, bad, err := runPolicyOn(r, c, false, ll)
+		if bad != "" {
+			bad = fmt.Sprintf("%s (case %d on this plugin instance)", bad, ll.cases)
+		}
 		if err != nil || bad != "" {
 			fatal(t, r, c, bad, err)
 		}
